@@ -1,4 +1,5 @@
 import GixModel.Lemmas.C44e
+import GixModel.Lemmas.C44r
 /-
 C44 — Tree diffs agree with git.  PROPERTY THEOREMS ONLY.
 
@@ -12,6 +13,13 @@ gitoxide's `Relation` bookkeeping.
 Domain: canonical trees (`C04.Canon`: sorted by git's order, unique valid names, directories mode
 040000, every sub-tree in the store — what git writes); `CanonN S d t` is the same down to depth
 `d`, which is what bounds the number of queue layers.
+
+Path tracking: the walk above hands every record its path directly. The real code only tells the
+delegate to push/pop path components and to remember/restore paths of queued sub-trees;
+`Model/C44.lean` also transcribes that call sequence (`diffEv`) and the `Recorder` (`runEvs`), and
+`recorder_replays_walk` / `recorder_paths_correct` prove that the `Recorder`, fed with those calls,
+records exactly the walk's records (so every path is the one the specification names), never hits
+its `expect` and ends with an empty `path_deque`.
 -/
 namespace GixModel.Props.C44
 open GixModel GixModel.Tree GixModel.C44
@@ -89,6 +97,47 @@ theorem diff_self_empty (S : Assoc Bytes (List Entry)) (d : Nat) (a : List Entry
     obtain ⟨p, hp⟩ := (h2 (core c)).1 (by simp)
     rw [changeAt_self] at hp
     cases hp
+
+/-- The `Recorder` (`Location::Path`) fed with the delegate calls the walk makes, in the order it
+makes them (`diffEv`: `push_path_component`, `pop_path_component`,
+`push_back_tracked_path_component`, `pop_front_tracked_path_and_set_current`, `visit` with a
+path-less change), for ANY two entry lists and any store: whenever the walk completes, the
+`Recorder` never fails its `expect`, its records are exactly the walk's records — every change
+stamped with the path `dir ++ [name]` of its entry — and its `path_deque` is empty again. -/
+theorem recorder_replays_walk (S : Assoc Bytes (List Entry)) (depth : Nat) (l r : List Entry)
+    (out : List Change) (h : diff S depth l r = .ok out) :
+    ∃ rs, runEvs ⟨[], [], []⟩ (diffEv S depth l r) = some rs ∧ rs.recs = out ∧ rs.deque = [] :=
+  diffEv_run S depth l r out h
+
+/-- …hence for canonical trees the paths the `Recorder` reconstructs from the push/pop calls are
+the specification's: what it records is, change for change, what `git diff-tree -r -t` prints, at
+exactly the paths where the two trees differ. -/
+theorem recorder_paths_correct (S : Assoc Bytes (List Entry)) (a b : List Entry) (ha : Canon S a)
+    (hb : Canon S b) :
+    ∃ d0, ∀ depth, d0 ≤ depth → ∃ rs, runEvs ⟨[], [], []⟩ (diffEv S depth a b) = some rs ∧
+      rs.deque = [] ∧ (rs.recs.map core).Nodup ∧
+      ∀ c, c ∈ rs.recs.map core ↔ ∃ p, c ∈ changeAt p (nodeIn S a p) (nodeIn S b p) := by
+  obtain ⟨d0, h0⟩ := diff_eq_spec S a b ha hb
+  refine ⟨d0, fun depth hd => ?_⟩
+  obtain ⟨out, h1, h2, h3⟩ := h0 depth hd
+  obtain ⟨rs, g1, g2, g3⟩ := diffEv_run S depth a b out h1
+  exact ⟨rs, g1, g3, g2 ▸ h2, g2 ▸ h3⟩
+
+-- non-vacuity: `d/x` changes and `e` (a file) becomes a directory: the 19 calls are
+-- pushBack d, visit(mod), pop, push e, visit(del), pop, push e, visit(add), pop, pushBack e, pop,
+-- popFront, push x, visit(mod), pop, popFront, push y, visit(add), pop
+-- and the Recorder reconstructs `d`, `e`, `e`, `d/x`, `e/y`
+example :
+    let x1 : List Entry := [⟨0o100644, [120], [1]⟩]
+    let x2 : List Entry := [⟨0o100644, [120], [2]⟩]
+    let y : List Entry := [⟨0o100644, [121], [3]⟩]
+    let S : Assoc Bytes (List Entry) := [([11], x1), ([12], x2), ([13], y)]
+    let a : List Entry := [⟨0o040000, [100], [11]⟩, ⟨0o100644, [101], [5]⟩]
+    let b : List Entry := [⟨0o040000, [100], [12]⟩, ⟨0o040000, [101], [13]⟩]
+    ((runEvs ⟨[], [], []⟩ (diffEv S 3 a b)).map (fun rs => rs.recs.map (fun c => match c with
+      | .add p .. => p | .del p .. => p | .mod p .. => p))) =
+      some [[[100]], [[101]], [[101]], [[100], [120]], [[101], [121]]] ∧
+    (diffEv S 3 a b).length = 19 := by decide +kernel
 
 /-- git's rule for type changes, as the specification states it: a file (symlink, submodule)
 replaced by a directory — or the other way round — is a deletion plus an addition, never a
